@@ -11,7 +11,7 @@ FEATURES = ["mass", "length", "duration", "area", "volume", "speed", "accelerati
 RULE = ("a probe crate with the same feature names (each forwarding only to quantities/<feature>) whose main, under cfg(feature), names the "
         "module, applies the declared derivation operators of that quantity and prints a fixed operation corpus (all unit pairs: conversion, "
         "comparison, + - /, formatting) as events; built and run for the 14 features individually, all jointly and none x {std, no std} x "
-        "{f64, Decimal} x {serde on, off}; quick = 16 sets in the default variant + the 8 variants of 'all' and 'none' (32 builds), thorough = "
+        "{f64, Decimal} x {serde on, off}; quick = 16 sets in the default variant + the 8 variants of 'all' and 'none' (30 builds), thorough = "
         "all 128; build verdict must be success; per back-end the event segment of each quantity must be identical in every configuration "
         "that contains it; cell = configuration; non-trivial = configurations with at least one quantity feature")
 
